@@ -22,6 +22,8 @@ type usCase struct {
 	Policy  string `json:"policy"`
 	Toggles []int  `json:"toggles"`
 	Ticker  bool   `json:"ticker"`
+	Down0   []int  `json:"down0"`
+	Abort   bool   `json:"abort"`
 }
 
 // a backend that can be taken down (listener and connections closed) and brought back on the same port
@@ -82,8 +84,14 @@ func Upstream(w *world.World, raws []json.RawMessage) ([]interface{}, error) {
 	location.Reset([]config.LocationConfig{{Name: "usloc", Upstream: "us"}})
 	w.AddHandler("us", server.ServerOption{Cache: "us", Locations: []string{"usloc"}})
 	reqNo := 0
+	abort := false
 	burst := func() []map[string]interface{} {
 		var res []map[string]interface{}
+		if abort {
+			// a client that has given up: its request reaches pike with a cancelled context
+			reqNo++
+			w.DoCase("", "us", "POST", "h", fmt.Sprintf("/us/%d", reqNo), http.Header{"X-Verif-Client-Gone": []string{"1"}}, nil)
+		}
 		for k := 0; k < 6; k++ {
 			reqNo++
 			r := w.DoCase("", "us", "POST", "h", fmt.Sprintf("/us/%d", reqNo), nil, nil)
@@ -105,6 +113,10 @@ func Upstream(w *world.World, raws []json.RawMessage) ([]interface{}, error) {
 					return nil, err
 				}
 			}
+		}
+		abort = c.Abort
+		for _, d := range c.Down0 {
+			bs[d-1].stop()
 		}
 		uc := config.UpstreamConfig{Name: "us", Policy: c.Policy}
 		for i := 0; i < c.N; i++ {
